@@ -128,6 +128,33 @@ FIRResampler::FIRResampler(int out_fs, int in_fs, const arr_real& h) {
     }
 }
 
+FIRResampler::FIRResampler(const FIRResampler& rhs)
+  : mode_{rhs.mode_} {
+    switch (mode_) {
+    case Mode::Decimator:
+        rsmp_ = std::make_shared<FIRDecimator>(static_cast<const FIRDecimator&>(*rhs.rsmp_));
+        break;
+    case Mode::Interpolator:
+        rsmp_ = std::make_shared<FIRInterpolator>(static_cast<const FIRInterpolator&>(*rhs.rsmp_));
+        break;
+    case Mode::Resampler:
+        rsmp_ = std::make_shared<FIRRateConverter>(static_cast<const FIRRateConverter&>(*rhs.rsmp_));
+        break;
+    default:
+        rsmp_ = std::make_shared<BypassResampler>();
+        break;
+    }
+}
+
+FIRResampler& FIRResampler::operator=(const FIRResampler& rhs) {
+    if (this != &rhs) {
+        FIRResampler tmp(rhs);
+        mode_ = tmp.mode_;
+        rsmp_ = std::move(tmp.rsmp_);
+    }
+    return *this;
+}
+
 int FIRResampler::delay() const noexcept {
     return rsmp_->delay();
 }
